@@ -512,7 +512,7 @@ fn write_quoted(s: &str, f: &mut Formatter<'_>) -> fmt::Result {
             '\t' => f.write_str("\\t"),
             '"' => f.write_str("\\\""),
             '\\' => f.write_str("\\\\"),
-            c if c.is_control() => write!(f, "\\u{:04}", c as u32),
+            c if c.is_control() => write!(f, "\\u{:04x}", c as u32),
             c => f.write_char(c),
         }?
     }
